@@ -10,8 +10,9 @@ for pf in "release std" "checked std" "release nostd" "checked nostd"; do
   feat=(); [ "$2" = nostd ] && feat=(--no-default-features)
   ( cd "$HERE/sim" && cargo build --quiet --profile "$1" "${feat[@]}" --target-dir "$HERE/sim/target/$2" ) || { echo "setup: build of rqsim $1/$2 failed" >&2; fail=1; }
 done
-for fl in small cap64; do
+for fl in small cap64 smallchk; do
   flags="--cfg raptorq_verif --cfg raptorq_verif_shuttle"; [ "$fl" = small ] && flags="$flags --cfg raptorq_verif_smallcache"
+  [ "$fl" = smallchk ] && flags="$flags --cfg raptorq_verif_smallcache -C debug-assertions=on -C overflow-checks=on"
   ( cd "$HERE/shuttle17" && RUSTFLAGS="$flags" cargo build --quiet --release --target-dir "$HERE/shuttle17/target/$fl" ) || { echo "setup: build of c17 $fl failed" >&2; fail=1; }
 done
 exit $fail
